@@ -699,6 +699,13 @@ pub(crate) fn m_wrap_step() {
                 } else {
                     assert!(wb.pre_wrapped == pre_wrapped, "continuation mark changed without a pending word");
                 }
+            } else if nchars == 1 && !had_word && ws != WhiteSpace::Normal && text == "\t" {
+                let col = line_len + wslen;
+                let nxt = (col / 8 + 1) * 8;
+                if nxt <= width {
+                    assert!(wb.line.len + wb.wslen == nxt && wb.text.len() == lines_before,
+                            "a tab from column {} must land on column {}, got {} (+{} pending)", col, nxt, wb.line.len, wb.wslen);
+                }
             } else if nchars == 1 && !had_word && ws != WhiteSpace::Normal && text == "\n" {
                 assert!(!wb.pre_wrapped, "a hard newline must end the continuation of a broken preformatted line");
                 assert!(wb.text.len() == lines_before + 1 && wb.line.len == 0 && wb.wslen == 0, "a newline ends the line and resets pending space");
